@@ -7,6 +7,8 @@ CONSTANTS MaxAtom = 2
  DiscardOnDelete = TRUE
  RecalcAllOnCommit = TRUE
  InitSlotsOnCopy = FALSE
+ RestoreCacheOnAbort = TRUE
+ FullFlushOnSpecialDelete = TRUE
  Elems <- SmallElems
  Orders <- SmallOrders
  Charges <- SmallCharges
